@@ -311,7 +311,8 @@ struct VecUnit : Unit
       Z nn = boost::multiprecision::numerator(q), dd = boost::multiprecision::denominator(q);
       if(nn < 0) nn = -nn;
       if(RT<R>::exact) return nn < (Z(1) << 60) && dd < (Z(1) << 60);
-      return nn < (Z(1) << 20) && dd <= (Z(1) << 10);
+      // |q| < 2^12 with granularity 2^-10: products need < 44 bits, sums of 16 products < 48 bits (53 available)
+      return dd <= (Z(1) << 10) && nn < (Z(1) << 12) * dd;
    }
    static bool allSmall(const Dense& m)
    {
@@ -1103,6 +1104,10 @@ struct VecUnit : Unit
             if(!s[b]->isSetup()) s[b]->setup();
             if(rnd && g.chance(0.3)) s[a]->unSetup();
             int ns = 0, nf = 0;
+            // assign2productShort stores the index of every visited element at idx[count] before it knows whether the position
+            // is new: with an index memory of exactly dim entries (constructor) a dense intermediate result overflows it.  If
+            // the probe saw that, give the target one spare entry first (reMem does that, as SoPlex's own reDim does).
+            if(hazards().a2pShortOverflow && s[a]->indices().max() <= D) s[a]->reMem(D + 1);
             note("{x.size=" + I(s[b]->size()) + (s[a]->isSetup() ? " setup" : " not-setup") + "}");
             s[a]->assign2product4setup(*A, *s[b], nullptr, nullptr, ns, nf);
             CK(ns + nf == 1, "call-counters-differ", "nCallsSparse+nCallsFull=" + I(ns + nf));
